@@ -5,7 +5,7 @@ open SaVerif.Drv SaVerif.AssocProxy
 
 /-!
 `assocproxy set <ops>`   add:v dis:v rem:v upd:vals dif:vals int:vals sym:vals clr
-`assocproxy dict <ops>`  set:k:v del:k pop:k:d(0|1) sdf:k:v upd:k=v.k=v clr
+`assocproxy dict <ops>`  set:k:v del:k pop:k:d(0 none|1 None|2 other) sdf:k:v upd:k=v.k=v clr
 `assocproxy list <ops>`  app:v ext:vals ins:i:v del:i pop:i set:i:v rem:v clr mul:n
 values / keys are ints, lists by `.`, `-` = empty.
 response per op: `ok|key|index|value|getter` `/` members; a member created by this op is
@@ -74,14 +74,14 @@ def sRun : Set.St → List SOp → List String
 
 /-! ### dict -/
 inductive DOp where
-  | set (k v : Int) | del (k : Int) | pop (k : Int) (d : Bool) | sdf (k v : Int)
+  | set (k v : Int) | del (k : Int) | pop (k : Int) (d : Nat) | sdf (k v : Int)
   | upd (l : List (Int × Int)) | clr
 
 def parseDOp? (s : String) : Option DOp :=
   match s.splitOn ":" with
   | ["set", k, v] => do pure (.set (← k.toInt?) (← v.toInt?))
   | ["del", k] => k.toInt?.map .del
-  | ["pop", k, d] => do pure (.pop (← k.toInt?) (d == "1"))
+  | ["pop", k, d] => do pure (.pop (← k.toInt?) (← d.toNat?))
   | ["sdf", k, v] => do pure (.sdf (← k.toInt?) (← v.toInt?))
   | ["upd", l] => (parsePairs? l).map .upd
   | ["clr"] => some .clr
